@@ -1,5 +1,6 @@
 import Proofs.C14Prepare
 import Proofs.C14Key
+import Proofs.C14Stmt
 import Proofs.C14Conn
 import Proofs.C14Obs
 import Proofs.C14Live
@@ -301,6 +302,53 @@ example :
 example :
     (run (init 10 : State Nat) [.lookup 1, .lookup 1, .complete 0 none, .lookup 1]).map
       (fun s => (prepares s.log 1, s.cache.find 1, outcome s 0)) = some (2, some 1, some .failed) := by decide
+
+/-! ## Statement level: whose text was PREPAREd for the flight an executor is handed
+
+FULL property ("an execution is never sent with an id/metadata belonging to a different statement"), for every
+cache size and every schedule of lookups / completions / UNPREPARED answers over ARBITRARY triples:
+
+    trun (tinit cap) as = some x → x.flightOf t = some f → x.sent[f]? = some t                (id_belongs_stmt)
+
+i.e. the flight that `execIfMissing` hands to an executor of (host, keyspace, text) t was published for, and its
+goroutine PREPAREd, exactly t. The code that exists violates it when two triples of the schedule collide under
+`keyFor` (`C14_cex_id_of_other_statement`, KF-C14-1). The `_partial` form takes key equality ⇒ statement identity
+from `C14_keypair_spec` / `C14_keyFor_injective_partial` instead of assuming it. -/
+
+/-- **Ids belong to the statement, partial.** In every reachable state, the flight cached under the key of t was
+    published by a lookup of a triple t' with the same KEY, and it is t' whose text was PREPAREd; t' = t unless
+    (t', t) is in the excluded class (plain concatenations equal although the host-id or keyspace lengths
+    differ) — in particular t' = t whenever host ids have one length and connections one keyspace. -/
+theorem C14_id_belongs_stmt_partial (cap : Int) (as : List TAction) (x : TState)
+    (h : trun (tinit cap) as = some x) (t : Triple) (f : Nat) (hf : x.flightOf t = some f) :
+    ∃ t', x.sent[f]? = some t' ∧ keyOf t' = keyOf t ∧ (excluded t' t = false → t' = t) := by
+  have hI := C14Stmt.trun_inv as (tinit cap) x (C14Stmt.tinv_init cap) h
+  have hr := C14Stmt.trun_run as (tinit cap) x h
+  obtain ⟨_, hb, _, _⟩ := run_good (init cap) x.s _ (good_init cap) hr
+  obtain ⟨fl, h1, h2, _⟩ := hb _ (find_some_mem x.s.cache (keyOf t) f hf)
+  obtain ⟨t', h3, h4⟩ := hI.2 f fl h1
+  refine ⟨t', h3, h4.trans h2, ?_⟩
+  intro hx
+  have hk : sameKey t' t = true := by simp [sameKey, h4.trans h2]
+  rw [C14_keypair_spec t' t hx] at hk
+  simpa [sameStmt] using hk
+
+/-- **Counterexample (KF-C14-1), kernel-checked.** A = ("h","a","bX") is executed and PREPAREd (id 0xAA); then an
+    executor of B = ("h","ab","X") — a different statement — is handed A's flight: it will EXECUTE with the id the
+    server issued for A's text, and B is never PREPAREd (one PREPARE in the log). -/
+theorem C14_cex_id_of_other_statement :
+    let A : Triple := ⟨[0x68], [0x61], [0x62, 0x58]⟩
+    let B : Triple := ⟨[0x68], [0x61, 0x62], [0x58]⟩
+    (trun (tinit 1000) [.lookup A, .complete 0 (some [0xAA]), .lookup B]).map
+      (fun x => (x.flightOf B, x.sent, outcome x.s 0, prepares x.s.log (keyOf B))) =
+      some (some 0, [A], some (.ok [0xAA]), 1) ∧ A ≠ B := by decide
+
+/-- non-vacuity: near-colliding texts (one space / two spaces inside a literal) get their own flights and texts -/
+example :
+    let A : Triple := ⟨[1], [2], [0x27, 0x61, 0x20, 0x62, 0x27]⟩
+    let B : Triple := ⟨[1], [2], [0x27, 0x61, 0x20, 0x20, 0x62, 0x27]⟩
+    (trun (tinit 1000) [.lookup A, .complete 0 (some [0xAA]), .lookup B, .complete 1 (some [0xBB]), .lookup A]).map
+      (fun x => (x.flightOf A, x.flightOf B, x.sent)) = some (some 0, some 1, [A, B]) := by decide
 
 /-! ## Session tier: executions on real connections (`PConn`), for every schedule
 
